@@ -257,7 +257,7 @@ func CheckC19(t Target, src *choice.Src, st *Stats) *Violation {
 			w.PreOut = nil
 		}
 	}
-	faulted := src.Chance("faulted", 1, 8)
+	faulted := src.Chance("faulted", 1, 4)
 	if faulted {
 		w.Peers, w.SchedSeed = nil, 0 // faults and concurrency are explored separately
 		// a failed regenerate (unreadable input) must leave the checked-in file intact, or the chain
